@@ -25,6 +25,7 @@ import (
 	"seehuhn.de/go/geom/vec"
 	"seehuhn.de/go/pdf"
 	"seehuhn.de/go/pdf/graphics"
+	"seehuhn.de/go/pdf/internal/limits"
 )
 
 // State tracks graphics state during content stream building and writing.
@@ -183,6 +184,10 @@ func (s *State) Push() error {
 			return fmt.Errorf("q stack depth %d exceeds PDF 1.x limit of 28",
 				len(s.stack)+1)
 		}
+	}
+	if len(s.stack) >= limits.MaxGraphicsStateDepth {
+		return fmt.Errorf("q stack depth %d exceeds the limit of %d",
+			len(s.stack)+1, limits.MaxGraphicsStateDepth)
 	}
 	s.stack = append(s.stack, savedState{
 		Usable: s.Usable,
